@@ -106,3 +106,37 @@ Print Assumptions C09_back0.
 Print Assumptions C09_zero_length_shift.
 Print Assumptions C09_zero_length_round.
 Print Assumptions C09_round1_meaning.
+
+(* ---- int64 (second audit, N10; Kit/Int64.v, Model/Ops64.v, Proofs/Ops64Proofs.v) ----
+   time.Duration is an int64 and Go's += wraps around; the theorems above are about the unbounded model [add_dur].
+   [add_dur64] does the two additions of Subtitles.Add with wrap-around and the tests on the wrapped values.  Range: for
+   every cue both sums start + d and end + d are int64 values ([add_range]); it is exactly the no-overflow condition of
+   the two additions.  Inside it the two models coincide, so every theorem above is a theorem about Go's arithmetic;
+   outside it they differ (Add(10) on a cue ending at MaxInt64 - 5: the end becomes negative). *)
+From Astisub Require Import Kit.Int64 Model.Ops64 Proofs.Ops64Proofs.
+Theorem C09_int64 : forall d l, Forall (add_range d) l -> add_dur64 d l = add_dur d l.
+Proof. exact add_dur64_eq. Qed.
+(* a sufficient range that is easy to check: the shift and every time in [-2^62, 2^62) *)
+Theorem C09_int64_small : forall d x, small62 d -> small62 (st x) -> small62 (en x) -> add_range d x.
+Proof. exact add_range_small. Qed.
+(* in or out of the range, what the int64 model returns are int64 values *)
+Theorem C09_int64_closed : forall d l, Forall times64 (add_dur64 d l).
+Proof. exact add_dur64_in. Qed.
+(* the transfer, on one of the theorems above *)
+Theorem C09_int64_times_payload : forall d l, Forall wf_item l -> Forall (add_range d) l ->
+  Forall2 (fun x y => en y = en x + d /\ st y = Z.max 0 (st x + d) /\ same_payload x y)
+          (filter (alive d) l) (add_dur64 d l).
+Proof. intros d l Hw Hr. rewrite (add_dur64_eq d l Hr). exact (add_pointwise d l Hw). Qed.
+(* the hypothesis is needed *)
+Example C09_int64_wraps :
+  map (fun x => (st x, en x)) (add_dur64 10 [ex_add_wrap]) = [(i64_max - 10, i64_min + 4)] /\
+  map (fun x => (st x, en x)) (add_dur 10 [ex_add_wrap]) = [(i64_max - 10, i64_max + 5)] /\
+  ~ add_range 10 ex_add_wrap.
+Proof. exact add64_wraps. Qed.
+Example C09_int64_wraps_removed :
+  add_dur64 30 [ex_add_wrap] = [] /\ map (fun x => (st x, en x)) (add_dur 30 [ex_add_wrap]) = [(i64_max + 10, i64_max + 25)].
+Proof. exact add64_wraps_removed. Qed.
+Print Assumptions C09_int64.
+Print Assumptions C09_int64_small.
+Print Assumptions C09_int64_closed.
+Print Assumptions C09_int64_times_payload.
